@@ -9,6 +9,10 @@ CLAIMED = {
             "Static, all-paths: the full decision table of every workspace impl RetrySession is extracted from type-checked MIR and every Retry* site is shown to lie where is_idempotent is true or the error class is within the SAFE set; the interpreting loop is shown (reachability after cuts) to re-send only through a Retry* decision. Decides the structural clauses, not end-to-end frame counts.",
             "Trusts rustc MIR construction; SAFE set transcribed from the property text; user-supplied policies out of scope.",
             "DESIGN.md §3 C06"),
+    "C08": ("call-graph reachability from decode entry points + panic-site census with reviewed/discharged table, shape-set consistency of `unreachable!` arms, origin classification of allocation sizes, SCC recursion review",
+            "Static, all inputs: over the ~1750 workspace functions reachable from the decode entry points, every Assert terminator and panicking-API call is either discharged by a local rule or listed in a reviewed table with its guard (some guards re-checked structurally); every `unreachable!/expect` that relies on a prior type_check is shown to be reachable only under shapes the sibling type_check rejects; every capacity-taking call is classified by the origin of its size and a 32-bit wire field must be clamped by the remaining input; every call-graph cycle must have a reviewed depth bound. Two defects were repaired by fix: commits (unchecked preallocation from column counts, vector size overflow); four are recorded as known findings (frame-length and LZ4 preallocation, two unbounded recursions). Termination of parser loops and exact content of decoded values are not decided.",
+            "Trusts rustc MIR, the call-graph over-approximation for dyn/generic calls, and the reviewed tables (each entry confirmed by reading). Third-party crates by signature.",
+            "DESIGN.md §3 C08, §6"),
     "C09": ("MIR emission-sequence extraction with dataflow guards (flag/field/writer pairing, order), evaluated constant tables, cast census",
             "Static: for QUERY/EXECUTE parameters and BATCH every `flags |= C` site and its payload writer are shown to be guarded by the presence of the same field, to use the CQL v4 writer for that item and to write that field; the emission order of every SerializableRequest equals the v4 grammar; opcode/flag constants and the header layout in SerializedRequest::make equal the v4 tables; no narrowing `as` cast of a length/count remains in request building (the two that existed were repaired by a fix: commit). Because each guard depends on one field, the 2^6 option subsets reduce to independent per-field obligations, all checked.",
             "Trusts rustc MIR; CQL v4 tables transcribed by hand; compression libraries and value encodings (C01) out of scope.",
